@@ -39,6 +39,11 @@ __all__ = ['XPath2Parser']
 
 COMPARISON_OPERATORS = frozenset(('eq', 'ne', 'lt', 'le', 'gt', 'ge'))
 
+# General, value and node comparisons share a non-associative level of the grammar
+ALL_COMPARISON_OPERATORS = COMPARISON_OPERATORS | frozenset(
+    ('=', '!=', '<', '<=', '>', '>=', 'is', '<<', '>>')
+)
+
 register = XPath2Parser.register
 infix = XPath2Parser.infix
 method = XPath2Parser.method
@@ -505,7 +510,7 @@ def select__parenthesized_expression(self: XPathToken, context: ta.ContextType =
 @method('le', bp=30)
 @method('ge', bp=30)
 def led__value_comparison_operators(self: XPathToken, left: XPathToken) -> XPathToken:
-    if left.symbol in COMPARISON_OPERATORS:
+    if left.symbol in ALL_COMPARISON_OPERATORS:
         raise self.wrong_syntax()
     self[:] = left, self.parser.expression(rbp=30)
     return self
@@ -571,15 +576,24 @@ def evaluate__value_comparison_operators(self: XPathToken, context: ta.ContextTy
 # Node comparison
 @method('is', bp=30)
 def led__node_comparison(self: XPathToken, left: XPathToken) -> XPathToken:
-    if left.symbol == 'is':
+    if left.symbol in ALL_COMPARISON_OPERATORS:
+        raise self.wrong_syntax()
+    self[:] = left, self.parser.expression(rbp=30)
+    return self
+
+
+@method('<<', bp=30)
+@method('>>', bp=30)
+def led__node_order_comparison(self: XPathToken, left: XPathToken) -> XPathToken:
+    if left.symbol in ALL_COMPARISON_OPERATORS:
         raise self.wrong_syntax()
     self[:] = left, self.parser.expression(rbp=30)
     return self
 
 
 @method('is')
-@method(infix('<<', bp=30))
-@method(infix('>>', bp=30))
+@method('<<')
+@method('>>')
 def evaluate__node_comparison(self: XPathToken, context: ta.ContextType = None) \
         -> ta.OneOrEmpty[bool]:
     symbol = self.symbol
